@@ -88,12 +88,12 @@ Print Assumptions column_text_of_joined_symbol_is_full_text.
 
 (* the printed symbol is read back whole: symbol_text quotes a symbol exactly when the reader (which stops at the first
    character of the regenerated invalid_chars table) would stop inside it.  Hypotheses: the symbol is not empty, does not
-   begin with white space, holds no double quote and is not a reserved word; what follows it in the text is the end or a
+   begin with white space and holds no double quote (a symbol that spells a reserved word of the scanner is covered: it
+   is written in quotes - F160, repaired in /repo; before, this theorem needed "is not a reserved word"); what follows it in the text is the end or a
    character the reader stops at (a blank, a digit, a sign - as in every printed amount) *)
 Theorem printed_symbol_reads_back : forall sym rest c0 s0,
   sym = c0 :: s0 -> is_space c0 = false ->
   existsb (fun c => c =? 34) sym = false ->
-  existsb (str_eqb sym) src_reserved_words = false ->
   (match rest with [] => True | c :: _ => is_invalid c = true end) ->
   read_symbol (symbol_text sym ++ rest) = Ok (sym, rest).
 Proof. exact symbol_text_reads_back. Qed.
@@ -103,7 +103,10 @@ Example ex_symbols_read_back :
   read_symbol (symbol_text [81; 126; 90] ++ [32; 49]) = Ok ([81; 126; 90], [32; 49]) /\      (* "Q~Z" 1 : quoted *)
   symbol_text [81; 126; 90] = [34; 81; 126; 90; 34] /\
   read_symbol (symbol_text [69; 85; 82] ++ [32; 49]) = Ok ([69; 85; 82], [32; 49]) /\         (* EUR 1 : bare *)
-  symbol_text [69; 85; 82] = [69; 85; 82].
+  symbol_text [69; 85; 82] = [69; 85; 82] /\
+  read_symbol (symbol_text [97; 110; 100] ++ [32; 49]) = Ok ([97; 110; 100], [32; 49]) /\      (* "and" 1 : quoted *)
+  symbol_text [97; 110; 100] = [34; 97; 110; 100; 34] /\
+  symbol_text [97; 110; 100; 121] = [97; 110; 100; 121].                                      (* andy : bare *)
 Proof. vm_compute. repeat split. Qed.
 
 (* print -> re-read, plain decimal texts (digits and a decimal point): the reader recovers
